@@ -819,34 +819,37 @@ pub fn c09(ctx: &Ctx, rep: &mut Report) {
     for (p, &k) in ks.iter().enumerate() {
         let (c, o1, o2) = (&cases[2 * p], &impl_out[2 * p], &impl_out[2 * p + 1]);
         rep.oracle_checked += 1;
-        let r: Result<(), String> = (|| {
-            expect_ok(c, o1)?;
-            expect_ok(&cases[2 * p + 1], o2)?;
-            let (s1, s2) = (o1.steps().unwrap(), o2.steps().unwrap());
-            for (i, (a, b)) in s1.iter().zip(s2).enumerate() {
-                let exp = scale_bits(c.w32, a.bits, k);
-                // equal as VALUES (an image may be +0 where the run reports -0: the same number)
-                let height_ok = match exp {
-                    Some(e) => e == b.bits || bits_to_f64(c.w32, e) == bits_to_f64(c.w32, b.bits),
-                    None => false,
-                };
-                if a.c1 != b.c1 || a.c2 != b.c2 || a.size != b.size || !height_ok {
-                    // heights that are subnormal/overflowing after scaling are outside the safe range
-                    if exp.is_none() {
-                        return Ok(());
-                    }
-                    return Err(format!(
-                        "x2^{}: step {} ({},{},{},{}) became ({},{},{},{})",
-                        k, i, a.c1, a.c2, bits_to_f64(c.w32, a.bits), a.size, b.c1, b.c2, bits_to_f64(c.w32, b.bits), b.size
-                    ));
-                }
-            }
-            Ok(())
-        })();
-        if let Err(e) = r {
+        if let Err(e) = c09_pair(c, &cases[2 * p + 1], o1, o2, k) {
             rep.fail("oracle", e, vec![op_line_call(c), op_line_call(&cases[2 * p + 1])], vec![o1.line(false), o2.line(false)], vec![]);
         }
     }
+    run_pairs_reused(ctx, rep, &cases, ks.len(), &|p, c, c2, o1, o2| c09_pair(c, c2, o1, o2, ks[p]));
+}
+
+/// C09 for one pair: the run on `2^k M` has the labels and sizes of the run on `M` and heights `2^k height`.
+fn c09_pair(c: &Case, c2: &Case, o1: &Outcome, o2: &Outcome, k: i32) -> Result<(), String> {
+    expect_ok(c, o1)?;
+    expect_ok(c2, o2)?;
+    let (s1, s2) = (o1.steps().unwrap(), o2.steps().unwrap());
+    for (i, (a, b)) in s1.iter().zip(s2).enumerate() {
+        let exp = scale_bits(c.w32, a.bits, k);
+        // equal as VALUES (an image may be +0 where the run reports -0: the same number)
+        let height_ok = match exp {
+            Some(e) => e == b.bits || bits_to_f64(c.w32, e) == bits_to_f64(c.w32, b.bits),
+            None => false,
+        };
+        if a.c1 != b.c1 || a.c2 != b.c2 || a.size != b.size || !height_ok {
+            // heights that are subnormal/overflowing after scaling are outside the safe range
+            if exp.is_none() {
+                return Ok(());
+            }
+            return Err(format!(
+                "x2^{}: step {} ({},{},{},{}) became ({},{},{},{})",
+                k, i, a.c1, a.c2, bits_to_f64(c.w32, a.bits), a.size, b.c1, b.c2, bits_to_f64(c.w32, b.bits), b.size
+            ));
+        }
+    }
+    Ok(())
 }
 
 fn mono_map(kind: usize, x: f64) -> f64 {
@@ -1004,33 +1007,83 @@ pub fn c10(ctx: &Ctx, rep: &mut Report) {
     for (p, table) in maps.iter().enumerate() {
         let (c, o1, o2) = (&cases[2 * p], &impl_out[2 * p], &impl_out[2 * p + 1]);
         rep.oracle_checked += 1;
-        let r: Result<(), String> = (|| {
-            expect_ok(c, o1)?;
-            expect_ok(&cases[2 * p + 1], o2)?;
-            let (s1, s2) = (o1.steps().unwrap(), o2.steps().unwrap());
-            for (i, (a, b)) in s1.iter().zip(s2).enumerate() {
-                // heights are input values (single/complete only select): look up by value
-                let av = bits_to_f64(c.w32, a.bits);
-                let exp = table.iter().find(|t| bits_to_f64(c.w32, t.0) == av).map(|t| t.1);
-                // equal as VALUES: with both zeros present the image of the height may be +0 where the run
-                // reports -0 (the same number)
-                let height_ok = match exp {
-                    Some(e) => e == b.bits || bits_to_f64(c.w32, e) == bits_to_f64(c.w32, b.bits),
-                    None => false,
-                };
-                if a.c1 != b.c1 || a.c2 != b.c2 || a.size != b.size || !height_ok {
-                    return Err(format!(
-                        "g: step {} ({},{},{},{}) became ({},{},{},{}) expected height bits {:?}",
-                        i, a.c1, a.c2, av, a.size, b.c1, b.c2, bits_to_f64(c.w32, b.bits), b.size, exp
-                    ));
-                }
-            }
-            Ok(())
-        })();
-        if let Err(e) = r {
+        if let Err(e) = c10_pair(c, &cases[2 * p + 1], o1, o2, table) {
             rep.fail("oracle", e, vec![op_line_call(c), op_line_call(&cases[2 * p + 1])], vec![o1.line(false), o2.line(false)], vec![]);
         }
     }
+    run_pairs_reused(ctx, rep, &cases, maps.len(), &|p, c, c2, o1, o2| c10_pair(c, c2, o1, o2, &maps[p]));
+}
+
+/// The pairs `(cases[2p], cases[2p+1])` once more through the `_with` forms on objects that are REUSED:
+/// sessions of up to 8 pairs (M, g(M), M', g'(M'), ...) of one float width share one LinkageState /
+/// Dendrogram, as the crate's documentation recommends; whatever an earlier call left behind must not
+/// reach a later result, so `check` must accept each pair exactly as it does on fresh objects.
+fn run_pairs_reused(ctx: &Ctx, rep: &mut Report, cases: &[Case], npairs: usize, check: &dyn Fn(usize, &Case, &Case, &Outcome, &Outcome) -> Result<(), String>) {
+    let mut sessions: Vec<crate::history::History> = vec![];
+    let mut session_pairs: Vec<Vec<usize>> = vec![];
+    for w32 in [false, true] {
+        let idx: Vec<usize> = (0..npairs).filter(|&p| cases[2 * p].w32 == w32).collect();
+        for chunk in idx.chunks(8) {
+            let mut calls = vec![];
+            for &p in chunk {
+                calls.push(cases[2 * p].clone());
+                calls.push(cases[2 * p + 1].clone());
+            }
+            sessions.push(crate::history::History { id: sessions.len(), w32, calls });
+            session_pairs.push(chunk.to_vec());
+        }
+    }
+    rep.count_by("reused_state_sessions", sessions.len() as u64);
+    let sessions = Arc::new(sessions);
+    let shared = match par_map(sessions.clone(), ctx.threads, |_h| std::time::Duration::from_secs(120), crate::history::run_history) {
+        Ok(v) => v,
+        Err(i) => {
+            rep.fail("hang", "session of `_with` calls on reused objects did not finish".into(), sessions[i].calls.iter().map(|c| op_line_with(0, c)).collect(), vec![], vec![]);
+            return;
+        }
+    };
+    for ((h, outs), pairs) in sessions.iter().zip(&shared).zip(&session_pairs) {
+        for (k, &p) in pairs.iter().enumerate() {
+            rep.oracle_checked += 1;
+            rep.count("reused_state_pairs");
+            let (c, c2, o1, o2) = (&h.calls[2 * k], &h.calls[2 * k + 1], &outs[2 * k], &outs[2 * k + 1]);
+            if let Err(e) = check(p, c, c2, o1, o2) {
+                rep.fail(
+                    "oracle",
+                    format!("on reused objects (call {} and {} of a `_with` session): {}", 2 * k, 2 * k + 1, e),
+                    h.calls[..2 * k + 2].iter().map(|c| op_line_with(0, c)).collect(),
+                    vec![o1.line(false), o2.line(false)],
+                    vec![],
+                );
+                break;
+            }
+        }
+    }
+}
+
+/// C10 for one pair: the run on `g(M)` has the labels and sizes of the run on `M` and heights `g(height)`.
+fn c10_pair(c: &Case, c2: &Case, o1: &Outcome, o2: &Outcome, table: &[(u64, u64)]) -> Result<(), String> {
+    expect_ok(c, o1)?;
+    expect_ok(c2, o2)?;
+    let (s1, s2) = (o1.steps().unwrap(), o2.steps().unwrap());
+    for (i, (a, b)) in s1.iter().zip(s2).enumerate() {
+        // heights are input values (single/complete only select): look up by value
+        let av = bits_to_f64(c.w32, a.bits);
+        let exp = table.iter().find(|t| bits_to_f64(c.w32, t.0) == av).map(|t| t.1);
+        // equal as VALUES: with both zeros present the image of the height may be +0 where the run
+        // reports -0 (the same number)
+        let height_ok = match exp {
+            Some(e) => e == b.bits || bits_to_f64(c.w32, e) == bits_to_f64(c.w32, b.bits),
+            None => false,
+        };
+        if a.c1 != b.c1 || a.c2 != b.c2 || a.size != b.size || !height_ok {
+            return Err(format!(
+                "g: step {} ({},{},{},{}) became ({},{},{},{}) expected height bits {:?}",
+                i, a.c1, a.c2, av, a.size, b.c1, b.c2, bits_to_f64(c.w32, b.bits), b.size, exp
+            ));
+        }
+    }
+    Ok(())
 }
 
 fn permute_matrix(n: usize, vals: &[u64], perm: &[usize]) -> Vec<u64> {
